@@ -239,6 +239,47 @@ def record_direct(args):
     return rows
 
 
+def record_mixed(args):
+    """One fresh interpreter, calls of MANY mnemonics interleaved in the given order (a memo / cache / table keyed too
+    coarsely only shows after some OTHER instruction has been encoded).  calls: [(mnemonic, operands, spelling mode)]."""
+    calls = args
+    a = impl.asm()
+    rows = []
+    for m, ops, mode in calls:
+        enc = a.INSTRUCTIONS[m]
+        sig = ALLSIG[m]
+        real = [spell_reg(v, mode) if s in ('r', 'p') else v for s, v in zip(sig, ops)]
+        try:
+            code = enc(*real[:-2], aq=real[-2], rl=real[-1]) if m.endswith('.w') else enc(*real)
+            ok = isinstance(code, int) and 0 <= code < 2**32
+            rows.append(_row(m, ops, 'ok', code if ok else 0xffffffff))
+        except Exception:
+            rows.append(_row(m, ops, 'err', 0))
+    return rows
+
+
+def sweep_mixed(mnemonics, seed, purpose, per=250):
+    """Per mnemonic: the tuples around zero / the reserved operands plus a seeded sample of the 'purpose' domain; all of them
+    shuffled together and run in ONE interpreter, then in the reverse order in another (so each pair of calls occurs in both
+    orders), then grouped by register-spelling mode (every spelling meets every encoder that shares it)."""
+    rng = random.Random(seed ^ 0x313)
+    calls = []
+    for m in mnemonics:
+        tuples = [t for t in gen_tuples(m, ALLSIG[m], random.Random(rng.randrange(2**31)), 'quick', purpose)]
+        small = [t for t in tuples if all(abs(v) <= 16 for v in t)]
+        tiny = [t for t in tuples if all(abs(v) <= 2 for v in t)]          # zeros / reserved operand patterns: all of them
+        pick = tiny + rng.sample(small, min(len(small), per)) + rng.sample(tuples, min(len(tuples), per))
+        for t in pick:
+            calls.append((m, t, rng.randrange(5)))
+    rng.shuffle(calls)
+    jobs = [calls, calls[::-1], sorted(calls, key=lambda c: (c[2], c[0].startswith('c.'))), sorted(calls, key=lambda c: (c[2], not c[0].startswith('c.')))]
+    rows = []
+    with ProcessPoolExecutor(max_workers=4) as ex:
+        for part in ex.map(record_mixed, jobs):
+            rows.extend(part)
+    return rows
+
+
 def validate_rows(rows, scratch, run=None, name='EncTrace', shard=40000):
     """TLC judges every row; returns list of (row index, clause)."""
     jobs, files = [], []
